@@ -237,18 +237,27 @@ def trace_events(seed, n):
         s1 = rng.choice([1.0, 1.2, 0.8])
         s2 = s1 * rng.choice([1.0, 1.1, 1.5])
         N = rng.choice([10, 100, 1000, 5000])
+        dense = tid % 25 == 7
+        if dense:       # a dense cloud (a real lidar sweep has a few 100k points)
+            N = 60000 + rng.randint(0, 5000)
         # points around the box in its own frame
-        loc = np.column_stack([np.array([rng.uniform(-1.5, 1.5) * size[1] for _ in range(N)]), np.array([rng.uniform(-1.5, 1.5) * size[0] for _ in range(N)]),
-                               np.array([rng.uniform(-1.5, 1.5) * size[2] for _ in range(N)])])
+        nrs = np.random.RandomState(rng.randint(0, 2**31 - 1))
+        loc = np.column_stack([nrs.uniform(-1.5, 1.5, N) * size[1], nrs.uniform(-1.5, 1.5, N) * size[0], nrs.uniform(-1.5, 1.5, N) * size[2]])
         c, s_ = math.cos(yaw), math.sin(yaw)
-        pts = np.column_stack([c * loc[:, 0] - s_ * loc[:, 1] + pos[0], s_ * loc[:, 0] + c * loc[:, 1] + pos[1], loc[:, 2] + pos[2], np.arange(N),
-                               np.array([rng.random() for _ in range(N)])])
+        pts = np.column_stack([c * loc[:, 0] - s_ * loc[:, 1] + pos[0], s_ * loc[:, 0] + c * loc[:, 1] + pos[1], loc[:, 2] + pos[2], np.arange(N), nrs.uniform(0, 1, N)])
         m = 1e-6
         well_in = (np.abs(loc[:, 0]) < s1 * size[1] / 2 - m) & (np.abs(loc[:, 1]) < s1 * size[0] / 2 - m) & (np.abs(loc[:, 2]) < size[2] / 2 - m)
         well_out = (np.abs(loc[:, 0]) > s1 * size[1] / 2 + m) | (np.abs(loc[:, 1]) > s1 * size[0] / 2 + m) | (np.abs(loc[:, 2]) > size[2] / 2 + m)
-        gin = ids(o.crop_pointcloud(pts, bbox_scale=s1, inside=True))
+        if tid % 5 == 2:
+            # the points the per-object sensing result reports inside (what the frame evaluation counts)
+            from perception_eval.evaluation.sensing.sensing_result import DynamicObjectWithSensingResult
+
+            gin = ids(DynamicObjectWithSensingResult(o, pts, s1, 1).inside_pointcloud)
+            gin2 = ids(DynamicObjectWithSensingResult(o, pts, s2, 1).inside_pointcloud)
+        else:
+            gin = ids(o.crop_pointcloud(pts, bbox_scale=s1, inside=True))
+            gin2 = ids(o.crop_pointcloud(pts, bbox_scale=s2, inside=True))
         gout = ids(o.crop_pointcloud(pts, bbox_scale=s1, inside=False))
-        gin2 = ids(o.crop_pointcloud(pts, bbox_scale=s2, inside=True))
         win = set(np.nonzero(well_in)[0].tolist())
         wout = set(np.nonzero(well_out)[0].tolist())
         evs.append(dict(tid=tid, n=N, n_in=len(gin), n_out=len(gout), overlap=len(gin & gout), well_in_missed=len(win - gin), well_out_included=len(wout & gin),
